@@ -98,10 +98,17 @@ func Load(repoDir, specDir string, patterns []string) (*Loader, error) {
 				if fn == nil || len(fn.Blocks) == 0 {
 					continue
 				}
-				k := l.funcKeyFull(fn)
-				if _, ok := l.allFuncs[k]; !ok {
-					l.allFuncs[k] = fn
+				var add func(fn *ssa.Function)
+				add = func(fn *ssa.Function) {
+					k := l.funcKeyFull(fn)
+					if _, ok := l.allFuncs[k]; !ok {
+						l.allFuncs[k] = fn
+					}
+					for _, a := range fn.AnonFuncs {
+						add(a)
+					}
 				}
+				add(fn)
 			}
 		}
 	}
